@@ -88,6 +88,9 @@ ASSUMPTIONS = ["urllib.parse.parse_qs defines what 'the query parameters' of a q
                "is an attribute name and cannot contain a slash, a Pyro object name can",
                "the gateway process is stateless: a case may run an earlier request (other options / member / query / wrong key) first; "
                "the judged request is held to the same oracle as without it",
+               "member 'drop' runs and then shuts its own connection down, so the gateway loses the connection to the object after the call was made (a fault, outside the "
+               "statement's quantifier): for it only 'invoked exactly once' is judged, not what the HTTP client is told (on the pinned tree pyro_app then raises TypeError "
+               "from its error handler: the ConnectionClosedError's bytearray attribute is not JSON serialisable - recorded in DESIGN.md as an observation, not as a finding)",
                "quiescence: all gateway connections are gone, or (a gateway that keeps connections) every serving thread is back waiting "
                "for a message with an empty receive queue, observed twice 0.25 s after the request with no message recorded in between"]
 BUDGET_S = {"quick": 34, "thorough": 780}
@@ -98,7 +101,7 @@ COMM_TIMEOUT = 30.0
 # ------------------------------------------------------------------------------------------------
 NS_NAME = "Pyro.NameServer"
 OBJECT_NAMES = ["http.calc", "http.calc2", "http.Calc", "xhttp.calc", "http", "other.obj", "http.dir/leaf"]
-EXPOSED_METHODS = {"echo", "add", "boom", "fire", "fire_ow"}
+EXPOSED_METHODS = {"echo", "add", "boom", "fire", "fire_ow", "drop"}
 EXPOSED_ATTRS = {"prop"}
 
 PATTERNS = [r"http\.", r"^http\.calc$", r"http\.calc|other\.obj", "", r"Pyro\."]
@@ -200,6 +203,18 @@ def target_class():
         def fire_ow(_s, /, **kw):
             _s._rec("fire_ow", kw)
             _s.fired.set()
+
+        @expose
+        def drop(_s, /, **kw):
+            # runs, and then its connection dies before the reply can leave: the caller cannot get an answer - but the call HAS run
+            _s._rec("drop", kw)
+            import socket
+            from Pyro5.callcontext import current_context
+            try:
+                current_context.client.sock.shutdown(socket.SHUT_RDWR)
+            except Exception:
+                pass
+            return "never arrives"
 
         @expose
         @property
@@ -731,7 +746,7 @@ def faithful(case, obs, facts, obj, member, kw, newline=False):
                 sorted(j["methods"]) != sorted(methods) or sorted(j["attributes"]) != sorted(attrs):
             return bad("C20:meta:wrong-body", "%s: $meta body %s, real members %s / %s" % (desc, _short(body, 150), sorted(methods), sorted(attrs)))
 
-    if obs["exc"] is not None:
+    if obs["exc"] is not None and not (member == "drop" and target not in (None, "NS") and any(e[1] == "drop" for e in log)):
         return out      # reported by the caller
     if target is None:
         expect_error()
@@ -779,6 +794,10 @@ def faithful(case, obs, facts, obj, member, kw, newline=False):
     if member == "$meta":
         expect_meta(obj)
         expect_log([])
+    elif member == "drop":
+        # the connection to the object is lost after the method ran (a fault outside the statement's quantifier): what the HTTP client
+        # is told is not judged, only that the one request invoked the method exactly once
+        expect_log([(label, "drop", dict(kw))])
     elif member in MODEL:
         try:
             outcome = ("value", MODEL[member](label, **kw))
@@ -828,7 +847,9 @@ def judge(case, obs, facts):
                                                    case["gateway_key"], case["ns_regex"])
     silent = not obs["traffic"] and not obs["handshakes"] and not obs["log"]
 
-    if obs["exc"] is not None:
+    # (an exception out of pyro_app AFTER the method ran is the lost connection; before that it is something else)
+    lost_connection_member = verdict in ("forward", "either") and c["splits"][0][1] == "drop" and any(e[1] == "drop" for e in obs["log"])
+    if obs["exc"] is not None and not lost_connection_member:
         params = urllib.parse.parse_qs(obs["query"])
         if case["gateway_key"] and len(params.get("$key", [])) > 1 and not case.get("hdr_key"):
             out.append(Violation("C20:key:repeated-parameter-unhandled-exception",
@@ -862,8 +883,8 @@ def judge(case, obs, facts):
                 out.append(Violation("C20:index:status", "%s: index page answered %r" % (desc, obs["status"])))
     elif verdict in ("forward", "either"):
         obj, member = c["splits"][0]
-        if obs["exc"] is None:
-            if code in REFUSALS and silent:
+        if obs["exc"] is None or lost_connection_member:
+            if code in REFUSALS and silent and obs["exc"] is None:
                 if verdict == "forward":
                     out.append(Violation("C20:authorised-refused", "%s: authorised call request refused with %r" % (desc, obs["status"])))
             else:
@@ -930,7 +951,7 @@ NEAR_OBJECTS = ["http.calc3", "http.cal", "Http.calc", "HTTP.CALC", "http.calcx"
                 ".", "$meta", "http.CALC", "http.calc.http.calc", "other.obj.http.calc", "httq.calc"]
 OBJ_POOL = REGISTERED * 4 + NEAR_OBJECTS
 HAPPY_OBJ_POOL = OBJECT_NAMES * 3 + [NS_NAME, "http.nope", "other.obj2", "http.calc3"]
-REAL_MEMBERS = ["echo", "add", "boom", "fire", "fire_ow", "prop", "$meta"]
+REAL_MEMBERS = ["echo", "add", "boom", "fire", "fire_ow", "prop", "$meta", "drop"]
 NS_MEMBERS = ["count", "lookup", "ping", "list"]
 NEAR_MEMBERS = ["Echo", "echox", "ech", "xecho", "ECHO", "$Meta", "$meta2", "$met", "prop2", "Prop", "pro", "adds", "ad", "hidden", "echo ",
                 "écho", "nope", "fire_o", "coun", "Lookup"]
